@@ -13,6 +13,8 @@ import Driver.C16
 import Driver.C03
 import Driver.C10
 import Driver.C02
+import Driver.C04
+import Driver.C12
 
 def main (args : List String) : IO UInt32 := do
   let stdin ← IO.getStdin
@@ -32,4 +34,6 @@ def main (args : List String) : IO UInt32 := do
   | ["c03"] => Driver.loop stdin stdout Driver.C03.step {}; return 0
   | ["c10"] => Driver.loop stdin stdout Driver.C10.step {}; return 0
   | ["c02"] => Driver.loop stdin stdout Driver.C02.step {}; return 0
+  | ["c04"] => Driver.loop stdin stdout Driver.C04.step {}; return 0
+  | ["c12"] => Driver.loop stdin stdout Driver.C12.step {}; return 0
   | _ => IO.eprintln s!"unknown model {args}"; return 2
